@@ -21,7 +21,17 @@ static void gen_interval(Rng& rng, int kind, double& a, double& b)
 	switch(kind % 6)
 	{
 		case 0: a = -1, b = 1; break;
-		case 1: a = 0, b = rng.loguni(1e-3, 1e3); break;
+		case 1:
+			a = 0, b = rng.loguni(1e-3, 1e3);
+			// intervals of tiny absolute width at (or next to) the origin: perfectly resolvable, just small (seeded change C12-r7m2 returned 0 for widths
+			// below machine epsilon, taken as an absolute number)
+			if(rng.coin(0.25))
+			{
+				b = rng.loguni(1e-300, 1e-12);
+				if(rng.coin(0.4))
+					a = b, b = a * rng.uni(1.5, 4.0);
+			}
+			break;
 		case 2: a = rng.uni(-10, 10), b = a + rng.loguni(1e-3, 1e2); break;
 		case 3: {	// far from the origin, narrow
 			a = rng.sign() * rng.loguni(1.0, 1e3);
@@ -56,6 +66,16 @@ static void check_rule(Rng& rng, unsigned n, double a, double b, bool reversed)
 	{
 		BudgetGuard g(100 * (int64_t) ((n + 1) / 2) + 10);	 // bounded progress of the Newton loop: at most 100 steps per root
 		rw = reversed ? Compute_Gauss_Legendre_Roots_and_Weights(n, b, a) : Compute_Gauss_Legendre_Roots_and_Weights(n, a, b);
+	}
+	// a rule kept by reference (ordinary C++ for a returned temporary) is still that rule after another one has been computed (seeded change C12-r7m1
+	// returned a reference to one buffer shared by all calls)
+	if(n <= 64)
+	{
+		BudgetGuard g(400 * (int64_t) (n + 2) + 40);
+		const std::vector<std::vector<double>>& held = reversed ? Compute_Gauss_Legendre_Roots_and_Weights(n, b, a) : Compute_Gauss_Legendre_Roots_and_Weights(n, a, b);
+		const std::vector<std::vector<double>>& other = Compute_Gauss_Legendre_Roots_and_Weights(n + 1, reversed ? a : b, reversed ? b : a);
+		(void) other;
+		require("a-rule-held-by-reference-is-not-changed-by-later-calls", held == rw, [&] { return J().i("n", n).d("a", a).d("b", b).i("rows_now", (long long) held.size()); });
 	}
 	auto pj = [&] { return J().i("n", n).d("a", a).d("b", b).i("reversed", reversed); };
 	bool shape = rw.size() == n;
